@@ -422,6 +422,18 @@ theorem C14t_program_bounded (n K : Nat) (ident : Nat → Nat) (fixCas fixCtor :
     simp [init]
   omega
 
+/-- … in terms of the length of the log: an accepted log of a program is at most the bound plus
+    its number of stutters long — every accepted log longer than `n + (10 n + 22) N` consists, beyond
+    that length, of spin re-loads that saw the lock bit and spurious CAS failures only. -/
+theorem C14t_program_length (n K : Nat) (ident : Nat → Nat) (fixCas fixCtor : Bool) (srcs : Nat)
+    (ops : Nat → List Op) (m : Nat) (log : List Ev) (p' : PSt)
+    (h : runLog pstep (pinit n K ident fixCas fixCtor srcs ops m) log = some p') :
+    log.length ≤ n + (10 * n + 22) * sumTo m (fun i => (ops i).length) +
+      nStut (pinit n K ident fixCas fixCtor srcs ops m) log := by
+  have h1 := C14t_program_bounded n K ident fixCas fixCtor srcs ops m log p' h
+  have h2 := steps_add_stut _ _ _ h
+  omega
+
 /-- **No callback runs, and nothing touches its object, after its destructor returned — along
     every run of every program** (`C14q_never_after_dtor_returned` through the refinement): if the
     log of a program (repaired code, faithful thread identities) contains the return `ret b r` of
